@@ -708,6 +708,113 @@ static Step step(const std::vector<std::string>& hist, const std::string& op)
 }; // struct Model
 } // namespace opt
 
+// sizes: a vector of many owning pointers of mixed payload types (reallocations, erase / insert in the middle shift many
+// elements by move assignment), and many optionals copied in a chain.  One deterministic long history per size; the
+// accounting (exactly once, right destructor) is the same as in the explored models.
+static void wide_cases(mc::Report& rep)
+{
+    using nitro::lang::quaint_ptr;
+    auto make = [](int i) -> quaint_ptr {
+        switch (i % 3)
+        {
+        case 0: return nitro::lang::make_quaint<PA>(i);
+        case 1: return nitro::lang::make_quaint<PB>(i);
+        default: return nitro::lang::make_quaint<PC>(i);
+        }
+    };
+    for (int n : { 17, 64, 300, 1025 })
+    {
+        acct().live.clear();
+        acct().destroyed.clear();
+        acct().errors.clear();
+        std::vector<int> ref;
+        std::string problem;
+        {
+            std::vector<quaint_ptr> v;
+            for (int i = 0; i < n; i++)
+            {
+                v.push_back(make(i));
+                ref.push_back(i);
+            }
+            // erase every third element from the middle outwards, insert new ones at the front, move-assign over others
+            for (int i = n - 2; i > 0; i -= 3)
+            {
+                v.erase(v.begin() + i);
+                ref.erase(ref.begin() + i);
+            }
+            for (int i = 0; i < n / 4; i++)
+            {
+                v.insert(v.begin() + i, make(n + i));
+                ref.insert(ref.begin() + i, n + i);
+            }
+            for (size_t i = 0; i + 1 < v.size(); i += 5)
+            {
+                v[i] = make(3 * n + static_cast<int>(i));
+                ref[i] = 3 * n + static_cast<int>(i);
+            }
+            for (size_t i = 2; i < v.size(); i += 7)
+            {
+                v[i].reset();
+                ref[i] = -1;
+            }
+            std::vector<quaint_ptr> w(std::move(v));
+            size_t alive = 0;
+            for (auto r : ref)
+                alive += r >= 0;
+            if (acct().live.size() != alive)
+                problem = std::to_string(acct().live.size()) + " payloads alive, the reference has " + std::to_string(alive);
+            for (size_t i = 0; i < w.size() && problem.empty(); i++)
+            {
+                if ((ref[i] < 0) != (w[i].get() == nullptr))
+                    problem = "element " + std::to_string(i) + (ref[i] < 0 ? " should be empty" : " should own a payload");
+                else if (ref[i] >= 0)
+                {
+                    auto it = acct().live.find(w[i].get());
+                    if (it == acct().live.end() || it->second.id != ref[i])
+                        problem = "element " + std::to_string(i) + " owns payload #" + (it == acct().live.end() ? std::string("?") : std::to_string(it->second.id)) + " expected #" + std::to_string(ref[i]);
+                }
+            }
+        }
+        rep.count("executions");
+        rep.count("wide_cases");
+        if (!acct().live.empty() && problem.empty())
+            problem = std::to_string(acct().live.size()) + " payload(s) leaked after the vector was destroyed";
+        for (auto& e : acct().errors)
+            problem += (problem.empty() ? "" : "; ") + e;
+        if (!problem.empty())
+            rep.violation("payload-accounting(many-owners)", "C18:payload-accounting:wide", mc::J().s("model", "wide").n("n", n).str(),
+                          "vector of " + std::to_string(n) + " quaint_ptr (push, erase, insert, move-assign, reset, move the vector): " + problem.substr(0, 400), 0);
+        acct().live.clear();
+        acct().errors.clear();
+        // a chain of optionals copied from one another: all independent, all hold the value, emptying one empties only that one
+        {
+            std::vector<nitro::lang::optional<std::string>> os;
+            os.emplace_back(std::string(40, 'v'));
+            for (int i = 1; i < n; i++)
+                os.push_back(os[i / 2]);
+            os[n / 2] = nitro::lang::optional<std::string>();
+            std::string bad;
+            for (int i = 0; i < n && bad.empty(); i++)
+            {
+                if (i == n / 2)
+                {
+                    if (os[i])
+                        bad = "the emptied optional is still engaged";
+                    continue;
+                }
+                if (!os[i] || *os[i] != std::string(40, 'v'))
+                    bad = "optional #" + std::to_string(i) + " lost its value";
+                for (int j = 0; j < i && bad.empty(); j += 13)
+                    if (j != n / 2 && &*os[i] == &*os[j])
+                        bad = "optionals #" + std::to_string(i) + " and #" + std::to_string(j) + " share one object";
+            }
+            rep.count("executions");
+            if (!bad.empty())
+                rep.violation("optional-copies(many)", "C18:optional-copies:wide", mc::J().s("model", "wide").n("n", n).str(), std::to_string(n) + " optionals copied in a chain: " + bad, 0);
+        }
+    }
+}
+
 int main(int argc, char** argv)
 {
     auto a = mc::parse_args(argc, argv);
@@ -733,7 +840,18 @@ int main(int argc, char** argv)
     if (!a.replay.empty())
     {
         auto doc = js::load(a.replay);
-        return seqmc::replay({ q, o, ob, os }, doc.has("witness") ? doc.at("witness") : doc);
+        const js::Value& w = doc.has("witness") ? doc.at("witness") : doc;
+        if (w.s("model") == "wide")
+        {
+            mc::Report r;
+            wide_cases(r);
+            for (auto& v : r.violations)
+                printf("  FAILED clause: %s\n    %s\n", v.second.clause.c_str(), v.second.detail.c_str());
+            if (r.violations.empty())
+                printf("replay C18 (many owners): conforms\n");
+            return r.violations.empty() ? 0 : 1;
+        }
+        return seqmc::replay({ q, o, ob, os }, w);
     }
     auto r1 = seqmc::explore(q, a);
     auto r2 = seqmc::explore(o, a);
@@ -743,6 +861,7 @@ int main(int argc, char** argv)
     total.merge(r2.rep);
     total.merge(r3.rep);
     total.merge(r4.rep);
+    wide_cases(total);
     total.notes["rule"] = "BFS to a fixpoint: quaint_ptr pool of 3 slots + vector of up to 3 elements over payload types A/B/C "
                           "(canonical state = which type each slot / vector element owns), 40 operations from every state; optional "
                           "pool of 2 over values {1,2} for three payload types (tracked struct, bool, std::string) with copies/assignments from const, "
